@@ -119,14 +119,21 @@ def _prepare(sc):
         kind, n = sc['prefill']
         # fill until the cache holds n entries (however the code under test keys them); if the keys run out
         # the scenario simply starts from a smaller cache
+        # (the memo dicts are private: if the implementation no longer keeps them under these names, make n calls
+        #  with distinct keys instead - a cache with n entries however it is built)
+        def held(name):
+            d = getattr(utils, name, None)
+            return len(d) if isinstance(d, dict) else None
         if kind == 'sv':
-            for f, v in PREFILL_SV:
-                if len(utils._schema_valid_cache) >= n:
+            for i, (f, v) in enumerate(PREFILL_SV):
+                h = held('_schema_valid_cache')
+                if (h if h is not None else i) >= n:
                     break
                 _call(C('schema_valid', f, v))
         else:
-            for j, s in PREFILL_VA:
-                if len(utils._valid_against_schema_cache) >= n:
+            for i, (j, s) in enumerate(PREFILL_VA):
+                h = held('_valid_against_schema_cache')
+                if (h if h is not None else i) >= n:
                     break
                 _call(C('valid_against_schema', j, s))
 
@@ -141,16 +148,30 @@ _SIZES = {}
 
 def _snapshot():
     m = sys.modules
+    # (observation of private module state for the model binding only: whatever is not there any more reads as 'none')
     if not _SIZES:
-        _SIZES['athlon'] = len(m['athlib.athlon_score']._scoring_table)
-        _SIZES['hungarian'] = len({tuple(x[:3]) for x in m['athlib.hungarian_score'].FACTORS})
+        try:
+            _SIZES['athlon'] = len(m['athlib.athlon_score']._scoring_table)
+        except Exception:
+            _SIZES['athlon'] = 1
+        try:
+            _SIZES['hungarian'] = len({tuple(x[:3]) for x in m['athlib.hungarian_score'].FACTORS})
+        except Exception:
+            _SIZES['hungarian'] = 1
     out = []
-    so = getattr(m.get('athlib.athlon_score'), '_scoring_objects', None)
-    out.append('none' if so is None else ('full%d' % len(so) if len(so) >= _SIZES['athlon'] else 'partial%d' % len(so)))
-    tb = getattr(m.get('athlib.hungarian_score'), '_table', None)
-    out.append('none' if tb is None else ('full%d' % len(tb) if len(tb) >= _SIZES['hungarian'] else 'partial%d' % len(tb)))
-    db = getattr(m.get('athlib.sportshall_score'), '_DB', None)
-    out.append('none' if not db else ('full%d' % len(db) if len(db) >= 13 else 'partial%d' % len(db)))
+
+    def size(mod, name):
+        v = getattr(m.get(mod), name, None)
+        try:
+            return None if v is None else len(v)
+        except Exception:
+            return None
+    so = size('athlib.athlon_score', '_scoring_objects')
+    out.append('none' if so is None else ('full%d' % so if so >= _SIZES['athlon'] else 'partial%d' % so))
+    tb = size('athlib.hungarian_score', '_table')
+    out.append('none' if tb is None else ('full%d' % tb if tb >= _SIZES['hungarian'] else 'partial%d' % tb))
+    db = size('athlib.sportshall_score', '_DB')
+    out.append('none' if not db else ('full%d' % db if db >= 13 else 'partial%d' % db))
     return ','.join(out)
 
 
